@@ -125,7 +125,7 @@ class Plane:
         """
         vg.shape.check(locals(), "points", (-1, 3))
 
-        eigval, eigvec = np.linalg.eig(np.cov(points.T))
+        eigval, eigvec = np.linalg.eigh(np.cov(points.T))
         ordering = np.argsort(eigval)[::-1]
         normal = np.cross(eigvec[:, ordering[0]], eigvec[:, ordering[1]])
 
